@@ -362,29 +362,29 @@ def run(F, rep):
     if n_v2 < 1:
         raise AnalysisBroken('C01.V2: no number-or-reference decision on an initial value found (generateDoubleOrConstantVariableNameCode confirmed)')
 
-    rep.rule('C01.N2', 'a model that enters the importer\'s library from a parameter of an exported method is known to be non-null there: fetchModel hands library entries to ImportSource::setModel and reports success, after which resolveImports dereferences them')
-    n_n2 = 0
-    for g in F.funcs.values():
-        if not g.file.endswith('/importer.cpp'):
-            continue
-        pp = {p['d']: p['n'] for p in g.params if 'std::shared_ptr<libcellml::Model>' in p['t']}
-        if not pp:
-            continue
-        for c in g.walk():
-            writes = None
-            if c.get('k') == 'Call' and c.get('mc') and c.get('fn') in ('insert', 'emplace', 'insert_or_assign', 'try_emplace') and 'mLibrary' in render(receiver(c)):
-                writes = c
-            if c.get('k') == 'Call' and c.get('opc') == '=' and 'mLibrary' in render(c['c'][0]):
-                writes = c
-            if writes is None:
+    rep.rule('C01.N2', 'a model taken out of the importer\'s library (which the public API can fill with null models) is null-tested before fetchModel hands it to ImportSource::setModel and reports success; '
+                       'resolveImports dereferences the model of every import source whose fetch succeeded')
+    fm_ = F.fn1('Importer::ImporterImpl::fetchModel')
+    reads = [c for c in fm_.walk() if c.get('k') == 'Call' and c.get('opc') == '=' and c['c'][0].get('k') == 'Ref' and 'mLibrary' in render(c['c'][1])]
+    sets = [c for c in fm_.walk() if c.get('k') == 'Call' and c.get('fn') == 'setModel']
+    if not reads or len(sets) != 1:
+        raise AnalysisBroken('fetchModel: library read / setModel vanished (%d reads, %d setModel)' % (len(reads), len(sets)))
+    cfg_ = fm_.cfg()
+    for rd in reads:
+        var = rd['c'][0]
+        tests = []
+        for i_ in fm_.walk():
+            if i_.get('k') != 'If':
                 continue
-            used = [x for x in walk(writes) if x.get('k') == 'Ref' and x.get('dk') == 'parm' and x.get('d') in pp]
-            for x in used:
-                n_n2 += 1
-                nn = nonnull_at(g, writes) or set()
-                rep.check(x['n'] in nn, 'C01.N2', '%s|%s' % (g.short, x['n']), g.where(writes), '%s stores its parameter `%s` in the library without a null test: resolveImports later treats the entry as a model' % (g.short, x['n']), 'null-tested before it is stored')
-    if n_n2 < 2:
-        raise AnalysisBroken('C01.N2: library writes from parameters vanished (%d, addModel and replaceModel confirmed)' % n_n2)
+            nt = null_test(role(i_, 'cond'))
+            if nt is None or nt[0].get('k') != 'Ref' or nt[0].get('d') != var.get('d'):
+                continue
+            branch = role(i_, 'then') if not nt[1] else role(i_, 'else')
+            leaves = branch is not None and any(x.get('k') == 'Return' and x.get('c') and render(x['c'][0]) == 'false' for x in walk(branch))
+            if leaves and cfg_.node_dominates(rd, role(i_, 'cond')):
+                tests.append(i_)
+        rep.check(bool(tests), 'C01.N2', 'fetchModel|%s' % render(rd)[:40], fm_.where(rd), 'fetchModel takes `%s` and hands it to setModel without a null test that returns false: a null library entry is reported as a successful fetch and dereferenced by resolveImports' % render(rd)[:40],
+                  'null-tested (returns false) before setModel')
 
     # ------------------------------------------------------------------ clause shared with C07: the library only holds models of files that were read successfully
     import core
